@@ -137,8 +137,10 @@ class Ctx:
         }
         if self.notes:
             ev['coverage']['notes'] = self.notes
-        os.makedirs(os.path.join(ROOT, 'evidence'), exist_ok=True)
-        with open(os.path.join(ROOT, 'evidence', self.id + '.json'), 'w') as fh:
+        # experiments against a modified copy of the repository (VERIF_REPO set) keep their evidence apart
+        evdir = os.environ.get('VERIF_EVIDENCE_DIR') or os.path.join(ROOT, 'evidence' if REPO == '/repo' else 'build/evidence_experiments')
+        os.makedirs(evdir, exist_ok=True)
+        with open(os.path.join(evdir, self.id + '.json'), 'w') as fh:
             json.dump(ev, fh, indent=1, sort_keys=True)
         for line in self.known:
             print(line)
